@@ -293,6 +293,17 @@ func (w *c06World) step(i int, st kernel.Step, baseline bool) bool {
 			return w.fail("marshal-error", "UnMarshal of own Marshal output: %v", err)
 		}
 		w.tree = t
+		// the same bytes loaded into a store-less tree that held (and cached the root of) another state
+		o := merkle.NewTree(0, nil, nil)
+		o.Append([]byte("other state"))
+		o.Append([]byte("other state 2"))
+		_ = o.Root()
+		if err := o.UnMarshal(b); err != nil {
+			return w.fail("marshal-error", "UnMarshal into another tree: %v", err)
+		}
+		if hash32(o.Root()) != w.ref.root(w.ref.size()) || int(o.TreeSize()) != w.ref.size() {
+			return w.fail("unmarshal-into-used-tree", "a tree that held another state reports size %d root %x after UnMarshal of (size %d, root %x)", o.TreeSize(), o.Root(), w.ref.size(), w.ref.root(w.ref.size()))
+		}
 		w.logf("marshal/unmarshal mode %d (%d bytes)", st.Arg(0)%2, len(b))
 		if !w.checkRoot("after Marshal/UnMarshal") {
 			return false
@@ -544,7 +555,7 @@ func init() {
 		Real:        []string{"merkle.CompactMerkleTree (Append, Root, GetRootWithNewLeaf(s), Marshal/UnMarshal, InclusionProof, MerkleInclusionLeafPath, ConsistencyProof)", "merkle file hash store on a real file (tmpfs)", "merkle.MerkleVerifier, merkle.MerkleProve"},
 		Stub:        []string{"the ledger's state batch that persists (size, hashes) is modelled by an in-memory snapshot taken at 'persist' steps"},
 		Assumptions: []string{"process-crash model: a completed hash-file write survives (Append syncs), the persisted (size, hashes) is never newer than the file", "consistency proofs from size 0 are only required to be accepted (RFC 6962 defines PROOF for m >= 1)", "SHA-256 collision resistance"},
-		QuickRuns:   480, ThoroughRuns: 24000, QuickCap: 40, ThoroughCap: 900,
+		QuickRuns:   320, ThoroughRuns: 16000, QuickCap: 40, ThoroughCap: 900,
 		RequiredProbes: []string{"enum_crash_with_lost_appends", "enum_close_reopen", "reopen_with_longer_file", "prediction_then_append", "tree_larger_than_grid", "empty_tree", "close_reopen", "crash_after_append_before_persist"},
 		Exhaustive:     true,
 		Generate:       c06Generate,
